@@ -1,5 +1,5 @@
 (* C20/Examples.v — non-vacuity: concrete instances of the hypotheses of the C20 theorems. *)
-From CF Require Import Common.Bytes C20.Model C20.Proofs_a C20.Proofs_b C20.Proofs_c C20.Proofs_d.
+From CF Require Import Common.Bytes C20.Model C20.Proofs_a C20.Proofs_b C20.Proofs_c C20.Proofs_d C20.Proofs_e.
 Open Scope Z_scope.
 
 Definition serials1 : list str := [s2l "ABCDEF0123"; s2l "E7E7E7E7E7"].
@@ -38,3 +38,11 @@ Proof. repeat split; reflexivity. Qed.
 
 Example ex_unknown : forall d, startswith (scheme_prefix d) (s2l "bluetooth://x") = false.
 Proof. intros []; reflexivity. Qed.
+
+(* F20b: address_from_env with query option / omitted fields (model of the repaired code) *)
+Example ex_f20b :
+  address_from_env (s2l "radio://0/80/2M/E7E7E7E701?rate_limit=100") = EnvAddr 996028180225 /\
+  address_from_env (s2l "radio://0/80") = EnvAddr DEFAULT_ADDR /\
+  address_from_env (s2l "radio://0/80/2M/zz") = EnvNone /\
+  be_val (tail_address (TChRateAddr 80 2 (s2l "E7E7E7E701"))) = 996028180225.
+Proof. repeat split; vm_compute; reflexivity. Qed.
